@@ -32,7 +32,7 @@ func loadProgram(repo string, patterns []string) (*Program, error) {
 	if err != nil {
 		return nil, err
 	}
-	prog := &Program{Fset: fset, Pkgs: map[string]*packages.Package{}, Funcs: map[string]*FuncInfo{}, ByObj: map[*types.Func]*FuncInfo{},
+	prog := &Program{Repo: repo, Fset: fset, Pkgs: map[string]*packages.Package{}, Funcs: map[string]*FuncInfo{}, ByObj: map[*types.Func]*FuncInfo{},
 		Specs: map[string]*FuncSpec{}, Pures: map[string]*PureFunc{}, AxPkg: map[string]string{},
 		footprints: map[*FuncInfo]*footprintT{}, Assumed: map[string]bool{}, Uncontracted: map[string]bool{}, Inlined: map[string]bool{}, Abstracted: map[string]bool{}}
 	var errs []string
